@@ -585,7 +585,7 @@ func c10CredURL(c *Ctx) {
 		why := ""
 		for _, pass := range needs {
 			ok, path := Guarded(fn.Blocks[0], ci, pass, nil)
-			if !ok || len(pass) == 0 {
+			if !ok || !nonVacuous(pass) {
 				good = false
 				why = "URL-embedded credentials can be applied to a request whose scheme/host was not compared equal: " + path
 			}
@@ -608,10 +608,10 @@ func c10CredURL(c *Ctx) {
 			p4 := eqField("Host", isRemote, isAPI)
 			ok3, _ := Guarded(fn.Blocks[0], r, p3, nil)
 			ok4, pth := Guarded(fn.Blocks[0], r, p4, nil)
-			c.Check(ok3 && ok4 && len(p3) > 0 && len(p4) > 0, "R5", "lookup-url:remote-matches-api", p.InstrPos(r), "the Git remote URL is used for the credential lookup only when its scheme and host:port equal the API's",
+			c.Check(ok3 && ok4 && nonVacuous(p3) && nonVacuous(p4), "R5", "lookup-url:remote-matches-api", p.InstrPos(r), "the Git remote URL is used for the credential lookup only when its scheme and host:port equal the API's",
 				"credentials can be looked up for a Git remote on a different scheme or host:port than the LFS API they are sent to: "+pth)
 		}
-		c.Check(ok1 && ok2 && len(pass1) > 0 && len(pass2) > 0, "R5", "lookup-url:"+describeRet(p, v), p.InstrPos(r), "credentials are looked up for another URL than the request's only when scheme and host:port agree",
+		c.Check(ok1 && ok2 && nonVacuous(pass1) && nonVacuous(pass2), "R5", "lookup-url:"+describeRet(p, v), p.InstrPos(r), "credentials are looked up for another URL than the request's only when scheme and host:port agree",
 			"credentials can be looked up for the API/remote URL and placed on a request to a different scheme or host: "+path)
 	}
 }
